@@ -7,6 +7,8 @@ use tiny_keccak::{Hasher, Sha3};
 fn main() -> anyhow::Result<()> {
     let out_dir = PathBuf::from(std::env::var_os("OUT_DIR").unwrap());
     gen_phf(&out_dir);
+    // verification hook guard (see src/verif_hooks.rs); declared so that rustc does not warn about it
+    println!("cargo:rustc-check-cfg=cfg(rustpython_parser_verif)");
 
     const SOURCE: &str = "src/python.lalrpop";
     println!("cargo:rerun-if-changed={SOURCE}");
